@@ -1035,23 +1035,12 @@ fn hex_to_decimal(ch: char) -> u64 {
   }
 }
 
-/// Joins the parts of the name with single whitespace separator. Every part is trimmed
-/// from additional whitespaces at both sides. The final string is also trimmed.
-/// After trimming, spaces around additional characters (`.`,`/`,`-`,`'`,`+`,`*`) are removed.
+/// Joins the parts of the name into the normal form bound names are kept in (see [Name::new]):
+/// every part is trimmed, words are separated with a single space and there are no spaces
+/// around additional characters (`.`,`/`,`-`,`'`,`+`,`*`), also when such a character ends
+/// the name or follows another one.
 fn flatten_name_parts(parts: &[String]) -> String {
-  parts
-    .iter()
-    .map(|s| s.trim().to_string())
-    .collect::<Vec<String>>()
-    .join(" ")
-    .trim()
-    .to_string()
-    .replace(" . ", ".")
-    .replace(" / ", "/")
-    .replace(" - ", "-")
-    .replace(" ' ", "'")
-    .replace(" + ", "+")
-    .replace(" * ", "*")
+  Name::from(parts.to_vec()).into()
 }
 
 /// Definitions of errors raised by the lexer.
